@@ -69,8 +69,10 @@ impl Likely {
             v.extend(set);
             let known = v.len();
             for u in unk {
-                assert!(!v.iter().any(|x| x == u), "unknown representative {} is known", u);
-                v.push(u.to_string());
+                // a candidate that CLDR happens to know is simply not an *unknown* representative
+                if !v.iter().any(|x| x == u) {
+                    v.push(u.to_string());
+                }
             }
             (v, known)
         };
